@@ -366,6 +366,54 @@ theorem C19.collapse_order_free : C19.CollapseOrderFree :=
 theorem C19.prices_order_free : C19.PricesOrderFree :=
   C19.prices_order_free_of_fixed C19.prices_set_fixed
 
+/-! ### compare_by_commodity on lots: the "only one side has it" branches mirror each other
+
+`sortedAmounts_perm` needs the comparator to be a total order on the lots of one
+balance.  For two lots that differ only in the PRESENCE of a detail the two
+mirrored branches of the source must answer with opposite signs; otherwise
+stable_sort leaves such a pair in hash order.  The return values are read from
+commodity.cc on every run (`Gen.lotPresenceReturns`). -/
+
+theorem C19.lot_presence_returns_antisymm :
+    ∀ e ∈ Gen.lotPresenceReturns, e.2.1 = - e.2.2 ∧ e.2.1 < 0 := by decide
+
+/-- Two lots equal in symbol, price and date, one with a (tag) and one without: each
+    direction of the comparison is the negation of the other and the untagged lot sorts first. -/
+theorem C19.compare_lots_tag_presence_antisymm (sym : String) (price : Option Rat) (date : Option Int)
+    (t : String) (hann : price.isSome ∨ date.isSome) :
+    compareLots ⟨sym, price, date, some t⟩ ⟨sym, price, date, none⟩
+      = - compareLots ⟨sym, price, date, none⟩ ⟨sym, price, date, some t⟩
+    ∧ compareLots ⟨sym, price, date, none⟩ ⟨sym, price, date, some t⟩ < 0 := by
+  have hs : ¬ sym < sym := String.lt_irrefl sym
+  have h1 : (presenceRet "tag").1 = -1 := by decide
+  have h2 : (presenceRet "tag").2 = 1 := by decide
+  cases price <;> cases date <;>
+    simp_all [compareLots, Lot.annotated, cmpDetail, Rat.lt_irrefl]
+
+/-- … the same for the presence of a lot date … -/
+theorem C19.compare_lots_date_presence_antisymm (sym : String) (price : Option Rat) (d : Int) (tag : Option String)
+    (hann : price.isSome ∨ tag.isSome) :
+    compareLots ⟨sym, price, some d, tag⟩ ⟨sym, price, none, tag⟩
+      = - compareLots ⟨sym, price, none, tag⟩ ⟨sym, price, some d, tag⟩
+    ∧ compareLots ⟨sym, price, none, tag⟩ ⟨sym, price, some d, tag⟩ < 0 := by
+  have hs : ¬ sym < sym := String.lt_irrefl sym
+  have h1 : (presenceRet "date").1 = -1 := by decide
+  have h2 : (presenceRet "date").2 = 1 := by decide
+  cases price <;> cases tag <;>
+    simp_all [compareLots, Lot.annotated, cmpDetail, Rat.lt_irrefl]
+
+/-- … and of a lot price. -/
+theorem C19.compare_lots_price_presence_antisymm (sym : String) (p : Rat) (date : Option Int) (tag : Option String)
+    (hann : date.isSome ∨ tag.isSome) :
+    compareLots ⟨sym, some p, date, tag⟩ ⟨sym, none, date, tag⟩
+      = - compareLots ⟨sym, none, date, tag⟩ ⟨sym, some p, date, tag⟩
+    ∧ compareLots ⟨sym, none, date, tag⟩ ⟨sym, some p, date, tag⟩ < 0 := by
+  have hs : ¬ sym < sym := String.lt_irrefl sym
+  have h1 : (presenceRet "price").1 = -1 := by decide
+  have h2 : (presenceRet "price").2 = 1 := by decide
+  cases date <;> cases tag <;>
+    simp_all [compareLots, Lot.annotated, cmpDetail]
+
 /-! ### non-vacuity -/
 
 /-- a three-commodity balance in two hash orders prints the same three lines -/
@@ -396,6 +444,9 @@ example : emitByName [("Income", 1), ("Assets:Cash", 2), ("Assets", 3)] = [("Ass
     ∧ emitByName [("Assets", 3), ("Income", 1), ("Assets:Cash", 2)] = [("Assets", 3), ("Assets:Cash", 2), ("Income", 1)] := by
   unfold emitByName
   exact ⟨sortByName_eq_sorted _ (by decide +kernel) (by decide) (by decide), sortByName_eq_sorted _ (by decide +kernel) (by decide) (by decide)⟩
+/-- the pair of the seeded regression: `1 AAA {$5} [2020/01/01] (t)` against the untagged lot -/
+example : compareLots ⟨"AAA", some 5, some 18262, some "t"⟩ ⟨"AAA", some 5, some 18262, none⟩ = 1
+    ∧ compareLots ⟨"AAA", some 5, some 18262, none⟩ ⟨"AAA", some 5, some 18262, some "t"⟩ = -1 := by decide +kernel
 /-- bal > amt on a two-commodity balance: defined, and the same in both orders -/
 example : gtAll [⟨2, 0, false, "AAA"⟩, ⟨3, 0, false, "EUR"⟩] (.amt ⟨1, 0, false, "AAA"⟩) = .ok true := by decide +kernel
 example : gtAll [⟨3, 0, false, "EUR"⟩, ⟨2, 0, false, "AAA"⟩] (.amt ⟨1, 0, false, "AAA"⟩) = .ok true := by decide +kernel
